@@ -127,6 +127,8 @@ func workerMain() {
 			outs = runBurst(parts[1:])
 		case "fault":
 			outs = runFault(parts[1:])
+		case "scan":
+			outs = runScan(parts[1:])
 		default:
 			outs = []string{"UNKNOWN-KIND"}
 		}
